@@ -809,7 +809,11 @@ class Server:
         """
         all_suppressed = set()
         for state in graph.values():
-            all_suppressed |= state.suppressed_set
+            # Only imports count: a suppressed indirect dependency does not make
+            # the module part of the build (see load_graph()).
+            all_suppressed |= {
+                dep for dep in state.suppressed_set if state.priorities.get(dep) != PRI_INDIRECT
+            }
 
         # Filter out things that shouldn't actually be considered suppressed.
         #
